@@ -65,6 +65,40 @@ func (c *Ctx) cod7Flags() {
 	if enc == nil {
 		return
 	}
+	// "option omitted when nil" / "A nil Message disables the Will option": whether
+	// the password and the Will go into CONNECT is a question of nil, not of
+	// length — an empty password is a password, an empty will message a message
+	{
+		nl := c.acc("COD-7", enc, "Password-and-Will.Message-present⇔non-nil(not-non-empty)")
+		seen := 0
+		for _, b := range c.regionBlocks(enc) {
+			for _, ins := range b.Instrs {
+				bo, ok := ins.(*ssa.BinOp)
+				if !ok {
+					continue
+				}
+				switch bo.Op {
+				case token.EQL, token.NEQ, token.GTR, token.LSS, token.GEQ, token.LEQ:
+				default:
+					continue
+				}
+				for _, side := range [][2]ssa.Value{{bo.X, bo.Y}, {bo.Y, bo.X}} {
+					k := roleKey(side[0])
+					if (k == "Config.Password" || k == "Config.Will.Message" || strings.HasSuffix(k, "Will.Message")) && pathx.IsNilConst(side[1]) {
+						seen++
+						nl.pass()
+					}
+					if arg, isLen := builtinCall(side[0], "len"); isLen && isK(side[1], 0) {
+						if ak := roleKey(arg); ak == "Config.Password" || strings.HasSuffix(ak, "Will.Message") {
+							nl.failAt(c.P.Pos(bo.Pos()), "whether %s goes into CONNECT is decided by its length (%s): the documentation says the option is omitted when nil — an empty, non-nil value is left out, and with an empty user name the user name flag goes with it", ak, bo.String())
+						}
+					}
+				}
+			}
+		}
+		nl.done(2, "the presence tests compare with nil")
+		_ = seen
+	}
 	a := c.acc("COD-7", enc, "CONNECT-flags-describe-the-payload")
 	for _, p := range c.Paths("COD-7", enc) {
 		if p.Start != enc.Blocks[0] || p.End != pathx.KReturn {
